@@ -15,6 +15,7 @@ import hashlib
 import os
 import re
 import shutil
+import time
 import subprocess
 import sys
 import tempfile
@@ -217,8 +218,10 @@ def _prune(keep):
     except OSError:
         return
     ents.sort(key=lambda e: os.path.getmtime(os.path.join(CACHE, e)), reverse=True)
-    for e in ents[2:]:
-        if e != keep:
+    now = time.time()
+    for e in ents[3:]:
+        # never a tree that may be in use by a check running next to this one (checks of different trees can run concurrently)
+        if e != keep and now - os.path.getmtime(os.path.join(CACHE, e)) > 3600:
             shutil.rmtree(os.path.join(CACHE, e), ignore_errors=True)
 
 
